@@ -17,11 +17,12 @@ RULE = ("Planted structures: 1-4 copies of a pattern (12 symmetry classes) in ra
         "last, round-robin). The expected answer is computed by the harness's independent brute-force matcher with a "
         "clear-occurrence / gray / clear-non-occurrence split; the real search must report every clear occurrence, "
         "no clear non-occurrence, no atom group twice, and exactly the number of occurrences when nothing is gray. The "
-        "same object is then edited where it is (translate()+wrap, atom moved, positions swapped, atom retyped; array "
+        "cells narrower than the pattern is long in one direction (slabs, chains: copies lying across them, judged on the planted "
+        "copies only); the same object is then edited where it is (translate()+wrap, atom moved, positions swapped, atom retyped; array "
         "identities kept) and searched and judged again. "
         "Non-trivial: at least one clear occurrence straddling a face or at least one decoy; distinct by seed.")
 ASSUMPTIONS = ["gray groups (between 0.12*atol optimal residual and the sqrt(3)*atol RMS bound) are never judged",
-               "domain: atoms inside the cell, perpendicular widths > pattern diameter + 2*atol (checked per case)"]
+               "domain of the reference matcher: atoms inside the cell, perpendicular widths > pattern diameter + 2*atol (checked per case); in the thin-cell class (one width below that) only the planted copies, distinctness of the listed atoms and uniqueness of groups are judged"]
 ANCHOR_FUNCS = [("mofun/mofun.py", "_get_positions_from_all_adjacent_unit_cells"), ("mofun/mofun.py", "find_pattern_in_structure"),
                 ("mofun/helpers.py", "group_duplicates"), ("mofun/helpers.py", "quaternion_from_two_vectors"),
                 ("mofun/helpers.py", "quaternion_from_two_vectors_around_axis")]
@@ -46,7 +47,60 @@ def cases(tier, seed):
                     "poses": [planted.POSES[int(x)] for x in rng.integers(0, len(planted.POSES), ncopies)],
                     "decoys": [] if minimal else [d for d in ("near_miss", "tangential", "mirror") if rng.integers(2)],
                     "schedule": SCHEDULES[(j // 3) % 4]})
+    thin_classes = ["pair_hetero", "collinear3", "planar_d3h", "twofold", "flat_polygon", "planar_mirror_pair", "asym5", "pair_homo"]
+    for j in range(80 if tier == "quick" else 6000):
+        out.append({"s": int(rng.integers(1 << 30)), "thin": True, "pattern": thin_classes[j % len(thin_classes)], "atol": ATOLS[j % 4], "cell": "thin", "schedule": "real"})
     return out
+
+
+def thin_case(rng, pat, atol):
+    """a cell that is narrower than the pattern is long in ONE direction (a slab, a chain, a 2D sheet), with copies lying across it:
+    every copy is still a group of distinct atoms. -> (Atoms, cell, planted groups) or None if the pattern is too round for that"""
+    from mofun import Atoms
+    ppos = np.asarray(pat["positions"], float)
+    n = len(ppos)
+    if n < 2:
+        return None
+    cen = ppos - ppos.mean(0)
+    _, _, vt = np.linalg.svd(cen)
+    Rm = vt[::-1]                       # rows: smallest-variance direction first -> it becomes x
+    if np.linalg.det(Rm) < 0:
+        Rm[2] = -Rm[2]
+    need = G.diameter(ppos) + 2 * atol
+    base = cen.dot(Rm.T)
+    ex = base[:, 0].max() - base[:, 0].min()
+    lo, hi = ex + 1.6, need - 0.3
+    if lo >= hi:
+        return None
+    a = float(rng.uniform(lo, min(hi, lo + 2.0)))
+    b, c = need + rng.uniform(3.0, 8.0, 2)
+    cell = np.array([[a, 0, 0], [0, b, 0], [0, (rng.uniform(-0.4, 0.4) if rng.integers(2) else 0.0) * b, c]])
+    positions, elements, groups = [], [], []
+    for k in range(int(rng.integers(1, 3))):
+        for _ in range(60):
+            rot = base.dot(G.rotation_about(np.array([1.0, 0, 0]), rng.uniform(0, 2 * np.pi)).T)
+            pos = rot + rng.uniform(0, 1, 3).dot(cell)
+            if all(planted.min_image_dist(cell, q, positions) >= 1.3 for q in pos) and \
+                    all(planted.min_image_dist(cell, pos[i], [pos[j] for j in range(n) if j != i]) >= 0.9 for i in range(n)):
+                groups.append(list(range(len(positions), len(positions) + n)))
+                positions += list(pos)
+                elements += list(pat["elements"])
+                break
+    if not groups:
+        return None
+    for _ in range(int(rng.integers(0, 5))):
+        for _ in range(40):
+            q = rng.uniform(0, 1, 3).dot(cell)
+            if planted.min_image_dist(cell, q, positions) >= 1.3:
+                positions.append(q)
+                elements.append("Ar")
+                break
+    positions = G.wrap(cell, np.array(positions))
+    order = rng.permutation(len(elements))
+    inv = np.empty(len(order), dtype=int)
+    inv[order] = np.arange(len(order))
+    atoms = Atoms(elements=[elements[i] for i in order], positions=positions[order], cell=cell, charges=[1000.0 + i / 64.0 for i in range(len(order))])
+    return atoms, cell, [[int(inv[i]) for i in g] for g in groups]
 
 
 def cell_group(cls):
@@ -126,6 +180,38 @@ def run_case(case, ctx):
     st = ctx.stats
     pat = patterns.make(rng, case["pattern"])
     atol = case["atol"]
+    if case.get("thin"):
+        import mofun
+        t = thin_case(rng, pat, atol)
+        if t is None:
+            st.count("thin_cell_not_applicable_(pattern too round)")
+            return
+        atoms, cell, groups = t
+        w = {"kind": "cell narrower than the pattern in one direction", "cell": np.round(cell, 4).tolist(), "pattern_class": pat["cls"], "pattern_elements": pat["elements"],
+             "pattern_positions": np.round(pat["positions"], 5).tolist(), "atol": atol, "planted": groups,
+             "elements": elements_of(atoms), "positions": np.round(np.asarray(atoms.positions, float), 5).tolist()}
+        events.seed_all(case["s"])
+        try:
+            res = mofun.find_pattern_in_structure(atoms, patterns.to_atoms(pat), atol=atol)
+        except Exception as e:
+            if type(e).__name__ == "PostBroken":
+                raise
+            ctx.fail("search in a cell narrower than the pattern raised %s: %s" % (type(e).__name__, str(e)[:160]), witness=w)
+            return
+        reported = [tuple(int(i) for i in m) for m in res]
+        keys = [tuple(sorted(m)) for m in reported]
+        for g in groups:
+            if tuple(sorted(g)) not in keys:
+                ctx.fail("in a cell narrower (%.2f A) than the pattern is long, the copy on atoms %s is not reported; reported %s" % (cell[0, 0], tuple(sorted(g)), sorted(set(keys))[:5]), witness=w)
+        for m in reported:
+            if len(set(m)) != len(m):
+                ctx.fail("a reported match lists an atom twice: %s" % (m,), witness=w)
+        if len(set(keys)) != len(keys):
+            ctx.fail("an atom group is reported more than once: %s" % sorted(k for k in set(keys) if keys.count(k) > 1)[:2], witness=w)
+        st.count("searches_in_cells_narrower_than_the_pattern")
+        st.count("copies_in_cells_narrower_than_the_pattern", len(groups))
+        ctx.nontrivial(["thin", case["s"]])
+        return
     built = planted.build(rng, pat, case["cell"], atol, n_copies=len(case["crossings"]), crossings=case["crossings"], poses=case["poses"],
                           decoys=case["decoys"], n_bystanders=int(rng.integers(0, 8)), n_distractors=int(rng.integers(0, 4)))
     r = search_and_judge(ctx, st, case, pat, built, atol)
@@ -196,6 +282,8 @@ def requirements(stats, tier):
                     (stats.get("occurrences_after_inplace_edit"), sorted(stats.sets.get("inplace_edit", []))))
     if stats.get("searches_with_verbose_output") < 20 or stats.get("searches_relying_on_the_default_tolerance") < 20:
         need.append("call forms: %d verbose searches, %d relying on the default tolerance" % (stats.get("searches_with_verbose_output"), stats.get("searches_relying_on_the_default_tolerance")))
+    if stats.get("copies_in_cells_narrower_than_the_pattern") < (40 if tier == "quick" else 3000):
+        need.append("copies found in cells narrower than the pattern: %d" % stats.get("copies_in_cells_narrower_than_the_pattern"))
     if stats.get("searches") < (500 if tier == "quick" else 45000):
         need.append("too few searches: %d" % stats.get("searches"))
     if stats.get("contract_eval.C01.in_domain") < stats.get("searches"):
